@@ -24,6 +24,7 @@ import (
 
 	. "github.com/siglens/siglens/pkg/segment/utils"
 	"github.com/siglens/siglens/pkg/utils"
+	"github.com/siglens/siglens/pkg/verifhook"
 	log "github.com/sirupsen/logrus"
 )
 
@@ -342,6 +343,7 @@ func (stb *StarTreeBuilder) EncodeStarTree(segKey string) (uint32, error) {
 		log.Errorf("EncodeStarTree: open failed fname=%v, err=%v", strMetaFname, err)
 		return 0, err
 	}
+	verifhook.At("rot.tree.created", "segkey", segKey)
 
 	_, err = strMFd.Write(VERSION_STAR_TREE_BLOCK)
 	if err != nil {
